@@ -7,18 +7,19 @@ import random
 
 import numpy as np
 
-from vf import gen, harness, refdec, speclib, synth
+from vf import gen, harness, refdec, speclib, synth, treecheck
 
 ID = "C13"
 LEVEL = "exploration"
 RULE = ("seeded products: 1..8 images over polarisation subsets x scan suffix sets (none, F1..F7 / B1..B7 subsets), levels "
         "1.1/1.5/3.1, image files listed polarisation-major / scan-major / reversed / in random order (ordinals need not be alphabetical), map projection record present/absent, summary lines shuffled within and across sections for a third of "
-        "the cases, LF/CRLF, workers run under different PYTHONHASHSEEDs. evaluations = products; non-trivial = product with "
+        "the cases, LF/CRLF, workers run under different PYTHONHASHSEEDs; every third product is then replaced in place (same root and file names, "
+        "new content everywhere, map projection toggled) and the second open is compared completely (root attributes, /metadata, line metadata, pixels). evaluations = products; non-trivial = product with "
         ">=2 image files or a scan suffix; distinct = distinct (level, pols, #scans, mp, shuffled) signatures")
 ASSUMPTIONS = ["file names always carry a polarisation (the naming rule presumes it)",
                "'summary order' of the images is the order of their ProductFileNameNN ordinals",
                "order of /metadata children is not asserted, only the set"]
-REQUIRED_OBS = ["products", "image_groups_checked"]
+REQUIRED_OBS = ["products", "image_groups_checked", "replaced_in_place"]
 N = {"quick": 300, "thorough": 8000}
 
 
@@ -130,6 +131,24 @@ def run_case(i, tier, seed):
                 violations.append({"what": f"/{p} missing", "detail": {}})
     finally:
         synth.uninstall(files, root, kind)
+    if i % 3 == 0:
+        # the product directory is re-delivered: same root, same file names, new content in every file; second open in this process
+        pols = list(dict.fromkeys(n.split("-")[1] for n in imgs))
+        files2, info2 = gen.rich_product(rng, [seed, i, 1], level=level, n_images=len(pols), scans=scans, max_lines=5, max_pixels=4,
+                                         leader_kw={"n_mp": 1 - n_mp}, newline=newline, image_order=image_order, pols=pols)
+        assert sorted(files2) == sorted(files), "replacement product must reuse the file names"
+        url = synth.install(files2, root, kind)
+        problems = []
+        try:
+            tree = harness.open_tree(url, use_cache=False, records_per_chunk=rng.choice([1, 2, 1024]))
+            obs["replaced_leaves_compared"] = treecheck.check_product(tree, files2, info2, problems)
+            obs["replaced_in_place"] = 1
+        except Exception as e:
+            problems.append(f"open raised on a well-formed product: {harness.exc_sig(e)}")
+        finally:
+            synth.uninstall(files2, root, kind)
+        for p in problems[:4]:
+            violations.append({"what": "[product replaced in place, second open in this process] " + p, "detail": {"files": info2["names"]["imgs"]}})
     return {"sig": sig, "evals": 1, "violations": violations, "obs": obs,
             "nontrivial": len(imgs) > 1 or scans != [None],
             "sample": {"level": level, "image_files": imgs, "groups": [harness.group_name(n) for n in imgs],
